@@ -6,7 +6,7 @@
    A history is any list of operations (requests through any client, file writes/deletes, chdir, argv
    assignments, new clients with caching on or off, command-line runs), of any length, from any state. *)
 From Coq Require Import List ZArith NArith Bool Arith String.
-From Verif Require Import Model.Process Model.Memo Gen.C08MemoTable Proofs.ProcessProofs Proofs.MemoProofs.
+From Verif Require Import Model.Process Model.Memo Gen.C08MemoTable Gen.C08StateTable Proofs.ProcessProofs Proofs.MemoProofs.
 Import ListNotations.
 
 (* RESTORE, current GEOPHIRES client (restore in `finally`) and the HIP-RA-X / HIP-RA clients: after EVERY request -
@@ -69,6 +69,23 @@ Theorem C08_cli_restore :
          (trace C R run hash resolve runh K keq keyof fixed st ops).
 Proof. exact trace_cli_restore. Qed.
 Print Assumptions C08_cli_restore.
+
+(* MONTE-CARLO WORK PACKAGE embedded in the process (any number of iterations, from ANY state - other clients with
+   anything cached, any files, any cwd/argv): every iteration writes its input file p (absolute), asks a NEW client,
+   deletes the file.  At the end cwd and argv are unchanged, the clients that existed before are untouched, and the
+   results of the embedded requests are, in order, the run of the iteration content (a failure when it does not run) *)
+Theorem C08_mc_package :
+  forall (C R : Type) (run : C -> option R) (hash : nat -> Z) (resolve : dir -> nat -> nat) (runh : nat -> C -> option R)
+         (K : Type) (keq : K -> K -> bool) (keyof : nat -> option C -> K) (ps : list nat) (st : state C R K) (c : C),
+  (forall p, In p ps -> forall d, resolve d p = p) ->
+  let st' := final C R run hash resolve runh K keq keyof true st (mc_package (List.length (clients st)) ps c) in
+  cwd st' = cwd st /\ argv st' = argv st
+  /\ firstn (List.length (clients st)) (clients st') = clients st
+  /\ filter (fun o => match o with Done => false | _ => true end)
+            (map (@eout C R K) (trace C R run hash resolve runh K keq keyof true st (mc_package (List.length (clients st)) ps c)))
+     = repeat (match run c with Some r => Returned r false | None => Raised end) (List.length ps).
+Proof. exact mc_package_spec. Qed.
+Print Assumptions C08_mc_package.
 
 (* NO CONTAMINATION in the model: a request changes nothing but the cache of the client it went through *)
 Theorem C08_get_frame :
@@ -224,6 +241,21 @@ Theorem C08_memo_table_ok : forall e, In e c08_memo_table -> entry_ok e = true.
 Proof. exact memo_table_ok_forall. Qed.
 Print Assumptions C08_memo_table_ok.
 
+(* STATE THAT OUTLIVES A RUN, beyond lru_cache (Gen/C08StateTable.v, regenerated from the source on each run):
+   no Parameter construction takes its DefaultValue / value from an object shared between runs (a module- or
+   class-level container, or a construction executed at import) ... *)
+Theorem C08_param_defaults_fresh :
+  forall d, In d c08_param_defaults -> pd_kind d <> DShared /\ pd_kind d <> DOther.
+Proof. exact param_defaults_fresh_forall. Qed.
+Print Assumptions C08_param_defaults_fresh.
+
+(* ... and every container created at import, mutable default argument or `global` name that the source writes to is
+   a guarded get-or-create memo / initialise-once singleton *)
+Theorem C08_state_table_ok :
+  forall e, In e c08_state_table -> se_mutated e = true -> se_keyed_memo e = true.
+Proof. exact state_table_ok_forall. Qed.
+Print Assumptions C08_state_table_ok.
+
 (* the verdicts on the implementation's observations are computed by these checkers; they are sound *)
 Theorem C08_checkers_sound :
   forall fixed g d a ops os,
@@ -318,6 +350,22 @@ Example C08_memo_table_example :
   existsb (fun e => match me_kind e with ValueKeyed => true | _ => false end) c08_memo_table = true
   /\ existsb (fun e => match me_kind e with IdentityKeyed _ => true | _ => false end) c08_memo_table = true.
 Proof. split; vm_compute; reflexivity. Qed.
+
+(* a work package of three iterations after ordinary requests, next to a client that holds a (stale) entry *)
+Example C08_mc_package_example :
+  map (@eout nat nat Z)
+      (ptrace (plain_cfg [0; 1]) true (DUser 1) [AUser 0]
+         ([NewClient true; Write 0 0; Get 0 0; Write 0 1] ++ mc_package 1 [5; 6; 7] 1 ++ [Get 0 0; Get 2 6]))
+  = [Done; Done; Returned 0 false; Done;
+     Done; Done; Returned 1 false; Done; Done; Done; Returned 1 false; Done; Done; Done; Returned 1 false; Done;
+     Returned 0 true; Returned 1 true].   (* the last two are hits of the path-keyed cache: file 0 was rewritten, file 6 deleted *)
+Proof. vm_compute. reflexivity. Qed.
+
+(* the generated tables are not empty *)
+Example C08_state_table_example :
+  c08_param_defaults <> [] /\ existsb default_ok c08_param_defaults = true
+  /\ existsb (fun d => match pd_kind d with DFresh => true | _ => false end) c08_param_defaults = true.
+Proof. split; [discriminate|split; vm_compute; reflexivity]. Qed.
 
 (* the session checker accepts a faithful observation of the stale witness only with the STALE code at step 4 *)
 Example C08_checker_example :
